@@ -22,11 +22,11 @@ func verifHarnessVarPool(k int, maxLen int, hard []string) {
 	var usersBefore []int // number of user identifiers registered before outs[i]
 	for i := 0; i < k; i++ {
 		switch verifChoice(3) {
-		case 0: // parser.go: pre-registration of a package-level identifier; result discarded
+		case 0: // parser.go: reservation of a package-level identifier
 			u := verifNondetString()
 			verifAssume(verifIsIdent(u, false, maxLen))
 			verifAssume(!verifIsKeyword(u))
-			_ = p.GetName(u)
+			p.Reserve(u)
 			users = append(users, u)
 		case 1: // variable / parameter / import alias / error variable
 			b := verifNondetString()
@@ -88,7 +88,12 @@ func verifHarnessVarPoolTwoRuns(k int, maxLen int) {
 	inj := verifNondetString() // injector name: any identifier
 	verifAssume(verifIsIdent(inj, false, maxLen))
 	verifAssume(!verifIsKeyword(inj))
-	_ = p2.GetName(inj) // the function declared in the stale *_band.go
+	// ParseFile reserves the injector names of the file it is about to generate
+	// (first and second run alike); in the second run the previous *_band.go
+	// already declares the function, so the name is reserved once more.
+	p1.Reserve(inj)
+	p2.Reserve(inj)
+	p2.Reserve(inj)
 	for i := 0; i < k; i++ {
 		b := verifNondetString()
 		verifAssume(verifIsIdent(b, true, maxLen))
